@@ -81,9 +81,12 @@ def apply_edit(root, edit, now_ns):
         _stamp(p, now_ns, follow=False)
     elif k == "to_symlink_outside":
         out = os.path.join(rootb, b"outside-" + uid.encode())
+        # every other time the outside file is an OLD one of exactly the member's length: seen through the
+        # link it passes a length check and a modification-time check (only the link itself is new)
+        old_twin = (sum(uid.encode()) % 2 == 0) and size > 0
         with open(out, "wb") as f:
-            f.write(content_bytes({"uniq": uid, "len": max(size, len(uid) + 6)}))
-        _stamp(out, now_ns)
+            f.write(content_bytes({"uniq": uid, "len": size if old_twin else max(size, len(uid) + 6)}))
+        _stamp(out, now_ns - 30 * 86400 * 10**9 if old_twin else now_ns)
         if st is not None:
             os.unlink(p)
         os.symlink(out, p)
